@@ -15,6 +15,7 @@ from .spec import All, Ctx, conj, implies
 
 
 NORETURN = object()
+LEAF_KINDS = ("bounds", "init", "overflow", "div0", "pre", "variant")
 
 
 class Unsupported(Exception):
@@ -24,7 +25,8 @@ class Unsupported(Exception):
 
 
 class Ob:
-    def __init__(self, function, kind, label, hyps, goal, detail="", zone=None, cover=False, insts=()):
+    def __init__(self, function, kind, label, hyps, goal, detail="", zone=None, cover=False, insts=(), split=()):
+        self.split = tuple(split)
         self.function, self.kind, self.label = function, kind, label
         self.hyps, self.goal, self.detail = hyps, goal, detail
         self.zone = zone          # reason string: if not proved, report `outside` (never refuted)
@@ -97,11 +99,12 @@ class Engine:
         self.gnames = {name: d["id"] for name, d in unit.globals.items()}
 
     # ------------------------------------------------------------------ obligations
-    def emit(self, kind, node_or_label, st, goal, detail="", cover=False, insts=()):
+    def emit(self, kind, node_or_label, st, goal, detail="", cover=False, insts=(), split=()):
         label = node_or_label if isinstance(node_or_label, str) else self.u.loc(node_or_label)
         if isinstance(goal, bool):
             goal = z3.BoolVal(goal)
-        self.obs.append(Ob(self.fn, kind, label, list(st.pc), goal, detail, self.zone, cover, insts))
+        zone = self.zone if kind in LEAF_KINDS else None   # invariants / posts / covers are never excused
+        self.obs.append(Ob(self.fn, kind, label, list(st.pc), goal, detail, zone, cover, insts, split))
 
     def ctx(self, st, **kw):
         return Ctx(st, self.names, self.gnames, **kw)
@@ -150,6 +153,8 @@ class Engine:
             params[pn] = v
             self.names[pn] = p["id"]
         self._collect_locals(fn)
+        self.idname = {v: k for k, v in self.gnames.items()}
+        self.idname.update({v: k for k, v in self.names.items()})
         return st, params
 
     def _collect_locals(self, fn):
@@ -173,6 +178,9 @@ class Engine:
         c0 = self.ctx(st, pre=pre, params=params)
         for label, f in K.requires(c0):
             st.assume(f)
+        if K.ghost:
+            for label, f in K.ghost(c0):
+                st.assume(f)
         self.emit("cover", "requires", st, z3.BoolVal(True), "requires is satisfiable", cover=True)
         pre.pc = list(st.pc)
         out = self.ex(self.u.body(fn), st)
@@ -185,6 +193,10 @@ class Engine:
             c = self.ctx(s, pre=pre, params=params, result=rv)
             for label, f in K.ensures(c):
                 self.emit("post", "%s@%s" % (label, tag), s, f, "ensures %s" % label)
+            ro = getattr(s, "return_ordinal", None)
+            if ro in K.return_ensures:
+                for label, f in K.return_ensures[ro](c):
+                    self.emit("post", "%s@return%d" % (label, ro), s, f, "ensures %s at return statement #%d" % (label, ro))
             self.check_assigns(K, s, pre, tag)
         return len(rets)
 
@@ -268,6 +280,7 @@ class Engine:
             return Out(brk=[st])
         if k == "ReturnStmt":
             v = self.coerce(self.ev(n["inner"][0], st)) if n.get("inner") else None
+            st.return_ordinal = n.get("_return_ordinal")
             return Out(ret=[(st, v)])
         if k == "NullStmt":
             return Out([st])
@@ -373,14 +386,15 @@ class Engine:
     def havoc(self, st, ids, blocks, tag):
         for i in ids:
             v = st.env.get(i)
+            nm = "%s@%s" % (self.idname.get(i, "v"), tag)
             if isinstance(v, FV):
-                nv = FV.fresh(tag)
+                nv = FV.fresh(nm)
                 st.assume(nv.wf())
                 st.env[i] = nv
             elif isinstance(v, Ptr):
                 raise Unsupported("havoc of pointer variable", tag)
             else:
-                st.env[i] = fresh_int(tag)
+                st.env[i] = fresh_int(nm)
                 st.assume(in_int(st.env[i]))
             old = st.vinit.get(i, z3.BoolVal(True))
             if not z3.is_true(old):
@@ -403,9 +417,9 @@ class Engine:
         st.assume(All("w", (0, e.length), lambda q: z3.Implies(z3.Select(old_init, q), z3.Select(new_init, q))))
         st.mem[b] = e
 
-    def check_clauses(self, kind, label, st, clauses):
+    def check_clauses(self, kind, label, st, clauses, split=()):
         for lab, f in clauses:
-            self.emit(kind, "%s/%s" % (label, lab), st, f, "%s clause %s" % (kind, lab))
+            self.emit(kind, "%s/%s" % (label, lab), st, f, "%s clause %s" % (kind, lab), split=split)
 
     def ex_for(self, n, st):
         ordinal = n["_loop_ordinal"]
@@ -446,11 +460,13 @@ class Engine:
         for s in o.normal:
             if inc:
                 self.ev(inc, s)
+            cx = self.ctx(s, pre=self.pre, params=self.params, loop_entry=entry)
+            split = tuple(L.split(cx)) if L.split else ()
             if L.cuts:
-                for lab, f in L.cuts(self.ctx(s, pre=self.pre, params=self.params, loop_entry=entry)):
-                    self.emit("inv_pres", "%s/cut/%s" % (tag, lab), s, f, "intermediate lemma %s" % lab)
+                for lab, f in L.cuts(cx):
+                    self.emit("inv_pres", "%s/cut/%s" % (tag, lab), s, f, "intermediate lemma %s" % lab, split=split)
                     s.assume(f)
-            self.check_clauses("inv_pres", tag, s, L.inv(self.ctx(s, pre=self.pre, params=self.params, loop_entry=entry)))
+            self.check_clauses("inv_pres", tag, s, L.inv(cx), split=split)
             if v0 is not None:
                 v1 = L.variant(self.ctx(s, pre=self.pre, params=self.params, loop_entry=entry))
                 self.emit("variant", tag + "/decreases", s, v1 < v0, "variant strictly decreases")
@@ -495,7 +511,7 @@ class Engine:
         if e.elem is None:
             raise Unsupported("access to untyped (void*) block", self.u.loc(node))
         self.emit("bounds", node, st, simp(z3.And(e.alive, p.off >= 0, p.off < e.length)),
-                  "%s %s in [0, len(%s))" % (what, self.u.src(node), p.block.name))
+                  "%s %s in [0, len(%s))" % (what, self.u.src(node), p.block.name), insts=[(p.off,)])
         return e
 
     def load(self, lv, st):
@@ -513,7 +529,8 @@ class Engine:
         e = self.check_access(p, node, st, "read")
         if e is None:
             return fresh_int("invalid")
-        self.emit("init", node, st, z3.Select(e.init, p.off), "cell %s written before this read" % self.u.src(node))
+        self.emit("init", node, st, z3.Select(e.init, p.off), "cell %s written before this read" % self.u.src(node),
+                  insts=[(p.off,)])
         if e.cls is not None:
             v = FV(z3.Select(e.data, p.off), z3.Select(e.cls, p.off))
             st.assume(v.wf())
@@ -800,6 +817,26 @@ class Engine:
             return self.call_contract(n, name, args, st)
         raise Unsupported("call to %s" % name, self.u.loc(n))
 
+    def global_refs(self, name, seen=None):
+        """global pointer variables mentioned by function `name` or anything it calls."""
+        seen = seen if seen is not None else set()
+        if name in seen or name not in self.u.functions:
+            return set()
+        seen.add(name)
+        out = set()
+
+        def walk(x):
+            if x.get("kind") == "DeclRefExpr":
+                rd = x["referencedDecl"]
+                if rd["kind"] == "VarDecl" and rd["id"] in self.gnames.values() and is_ptr_type(qt(rd)):
+                    out.add(rd["name"])
+                if rd["kind"] == "FunctionDecl":
+                    out.update(self.global_refs(rd["name"], seen))
+            for c in x.get("inner", []):
+                walk(c)
+        walk(self.u.body(self.u.functions[name]))
+        return out
+
     def call_contract(self, n, name, args, st):
         K = self.K[name]
         fn = self.u.functions[name]
@@ -820,10 +857,25 @@ class Engine:
                 ok = v.block is g.block and v.off.eq(g.off)
             elif ok and spec[0] == "block":
                 ok = isinstance(v.block, Block)
+            elif ok and spec[0] == "cell" and isinstance(v.block, LocalCell):
+                d = st.vinit.get(v.block.decl_id, z3.BoolVal(True))
+                if not z3.is_true(d):
+                    self.emit("init", "%s/&%s" % (loc, v.block.name), st, d,
+                              "local %s is assigned before its address is passed to %s" % (v.block.name, name))
             self.emit("pre", "%s/%s.%s" % (loc, name, pn), st, z3.BoolVal(bool(ok)),
                       "argument %s designates %s" % (pn, "/".join(spec)))
             if not ok:
                 raise Unsupported("pointer argument %s of %s does not match its contract" % (pn, name), loc)
+        # separation: blocks handed in for 'block'/'cell' parameters are pairwise distinct and are not the
+        # pointee of any global pointer that the callee (transitively) mentions
+        sep = [(pn, vals[pn].block) for pn, spec in K.ptr_params.items() if spec[0] in ("block", "cell")]
+        used = self.global_refs(name)
+        gblocks = {st.env[self.gnames[g]].block: g for g in used if isinstance(st.env[self.gnames[g]], Ptr)}
+        oksep = all(a[1] is not b[1] for i, a in enumerate(sep) for b in sep[i + 1:]) and \
+            all(b not in gblocks for _, b in sep)
+        if sep:
+            self.emit("pre", "%s/%s.separated" % (loc, name), st, z3.BoolVal(bool(oksep)),
+                      "pointer arguments of %s are separated from each other and from the globals it uses" % name)
         for lab, f in K.requires(cpre):
             self.emit("pre", "%s/%s.%s" % (loc, name, lab), st, f, "requires %s of %s" % (lab, name))
         # effects
